@@ -349,29 +349,36 @@ func ruleScalarStore(c *Ctx) {
 				}
 			}
 			// failure returns dominated by err != nil
-			if isFailureReturn(f, r) {
+			anchors := successAnchors(f, r)
+			if len(anchors) == 0 {
 				continue
 			}
-			stored := false
-			for _, d := range f.Blocks {
-				if !(d == b || d.Dominates(b)) {
-					continue
-				}
-				for _, in := range d.Instrs {
-					switch x := in.(type) {
-					case *ssa.Store:
-						if rr := rootOf(x.Addr); rr.kind == rkParam && isPtrParam(f, rr.base) {
-							stored = true
-						}
-					case *ssa.Call:
-						// delegation to another scalar Read with the same ptr, or SetValid-like method on the target
-						for _, a := range x.Common().Args {
-							// (a []byte rooted at the target pointer is the target seen as bytes: copy(id[:], data))
-							if rr := rootOf(a); rr.kind == rkParam && isPtrParam(f, rr.base) {
-								stored = true
+			stored := true
+			for _, a := range anchors {
+				storedA := false
+				for _, d := range f.Blocks {
+					if !(d == a || d.Dominates(a)) {
+						continue
+					}
+					for _, in := range d.Instrs {
+						switch x := in.(type) {
+						case *ssa.Store:
+							if rr := rootOf(x.Addr); rr.kind == rkParam && isPtrParam(f, rr.base) {
+								storedA = true
+							}
+						case *ssa.Call:
+							// delegation to another scalar Read with the same ptr, or SetValid-like method on the target
+							for _, ar := range x.Common().Args {
+								// (a []byte rooted at the target pointer is the target seen as bytes: copy(id[:], data))
+								if rr := rootOf(ar); rr.kind == rkParam && isPtrParam(f, rr.base) {
+									storedA = true
+								}
 							}
 						}
 					}
+				}
+				if !storedA {
+					stored = false
 				}
 			}
 			c.Oblige("X.scalarstore", stored, r.Pos(), name, "success return stores the decoded value",
@@ -446,6 +453,53 @@ func isFailureReturn(f *ssa.Function, r *ssa.Return) bool {
 		}
 	}
 	return false
+}
+
+// successAnchors: the blocks whose dominators must have done what a success
+// return requires. Normally the return's own block; for a merged return
+// "if err == nil { ... }; return n, err" the predecessors that are not on the
+// failure side of the test of that very error value. nil: a failure return.
+func successAnchors(f *ssa.Function, r *ssa.Return) []*ssa.BasicBlock {
+	b := r.Block()
+	e := r.Results[len(r.Results)-1]
+	if isNilConst(e) {
+		return []*ssa.BasicBlock{b}
+	}
+	if isFailureReturn(f, r) {
+		return nil
+	}
+	if len(b.Preds) < 2 {
+		return []*ssa.BasicBlock{b}
+	}
+	for _, d := range f.Blocks {
+		iff, ok := d.Instrs[len(d.Instrs)-1].(*ssa.If)
+		if !ok {
+			continue
+		}
+		cmp, ok := iff.Cond.(*ssa.BinOp)
+		if !ok || !((cmp.X == e && isNilConst(cmp.Y)) || (cmp.Y == e && isNilConst(cmp.X))) {
+			continue
+		}
+		if cmp.Op != token.EQL && cmp.Op != token.NEQ {
+			continue
+		}
+		fail := 0 // successor index taken when e != nil
+		if cmp.Op == token.EQL {
+			fail = 1
+		}
+		if !(d == b || d.Dominates(b)) {
+			continue
+		}
+		var out []*ssa.BasicBlock
+		for _, pr := range b.Preds {
+			failure := (pr == d && d.Succs[fail] == b) || dominatedByBranch(d, fail, pr)
+			if !failure {
+				out = append(out, pr)
+			}
+		}
+		return out
+	}
+	return []*ssa.BasicBlock{b}
 }
 
 // ruleStructUntouched: StructCodec.Read writes the target only through the
@@ -635,16 +689,28 @@ func rulePointerWrapper(c *Ctx) {
 	for _, b := range f.Blocks {
 		if r, ok := b.Instrs[len(b.Instrs)-1].(*ssa.Return); ok {
 			rets++
+			// every return hands back the results of a delegated Read (one call per
+			// return is fine: "if *t != nil { return u.Read(..) }; *t = u.New(); return u.Read(..)")
+			var tuple ssa.Value
 			for _, v := range r.Results {
 				ex, ok := v.(*ssa.Extract)
-				if !ok || ex.Tuple != ssa.Value(readCall) {
+				if !ok {
+					retOK = false
+					continue
+				}
+				call, ok := ex.Tuple.(*ssa.Call)
+				if !ok || !call.Common().IsInvoke() || call.Common().Method.Name() != "Read" {
 					retOK = false
 				}
+				if tuple != nil && tuple != ex.Tuple {
+					retOK = false
+				}
+				tuple = ex.Tuple
 			}
 		}
 	}
-	c.Oblige("T.ptr", readCall != nil && newStored && rets == 1 && retOK, f.Pos(), name, "Read allocates when nil and always delegates",
-		fmt.Sprintf("a present pointer must read back non-nil even when its encoding is empty: allocation under the nil test: %v, single return of the delegated Read: %v", newStored, rets == 1 && retOK), nil)
+	c.Oblige("T.ptr", readCall != nil && newStored && rets >= 1 && retOK, f.Pos(), name, "Read allocates when nil and always delegates",
+		fmt.Sprintf("a present pointer must read back non-nil even when its encoding is empty: allocation under the nil test: %v, every return is a delegated Read: %v", newStored, rets >= 1 && retOK), nil)
 	c.Floor("T.ptr", 6)
 }
 
@@ -706,27 +772,37 @@ func ruleNullCodecs(c *Ctx) {
 		rname := ssaFuncName(fr)
 		for _, b := range fr.Blocks {
 			r, ok := b.Instrs[len(b.Instrs)-1].(*ssa.Return)
-			if !ok || isFailureReturn(fr, r) {
+			if !ok {
 				continue
 			}
-			set := false
-			for _, d := range fr.Blocks {
-				if !(d == b || d.Dominates(b)) {
-					continue
-				}
-				for _, in := range d.Instrs {
-					switch x := in.(type) {
-					case *ssa.Store:
-						if fa, ok := x.Addr.(*ssa.FieldAddr); ok && fieldName(fa) == "Valid" {
-							if cst, ok := x.Val.(*ssa.Const); ok && cst.Value != nil && cst.Value.String() == "true" {
-								set = true
+			anchors := successAnchors(fr, r)
+			if len(anchors) == 0 {
+				continue
+			}
+			set := true
+			for _, a := range anchors {
+				setA := false
+				for _, d := range fr.Blocks {
+					if !(d == a || d.Dominates(a)) {
+						continue
+					}
+					for _, in := range d.Instrs {
+						switch x := in.(type) {
+						case *ssa.Store:
+							if fa, ok := x.Addr.(*ssa.FieldAddr); ok && fieldName(fa) == "Valid" {
+								if cst, ok := x.Val.(*ssa.Const); ok && cst.Value != nil && cst.Value.String() == "true" {
+									setA = true
+								}
+							}
+						case *ssa.Call:
+							if cal := x.Common().StaticCallee(); cal != nil && cal.Name() == "SetValid" {
+								setA = true
 							}
 						}
-					case *ssa.Call:
-						if cal := x.Common().StaticCallee(); cal != nil && cal.Name() == "SetValid" {
-							set = true
-						}
 					}
+				}
+				if !setA {
+					set = false
 				}
 			}
 			c.Oblige("T.null.read", set, r.Pos(), rname, "success return sets Valid",
